@@ -111,7 +111,7 @@ def run(c):
     stack_events(c, ev)
     try:
         import asmint
-        asmint.events(c, ev, sts[: (12 if th else 4)])
+        asmint.events(c, ev, sts[: (40 if th else 4)])
     except ImportError:
         c.cov['interpreted'] = []
     # validate the recorded events with the trace specification
